@@ -108,3 +108,18 @@ PROPS["C18"] = {
     "assumptions": ["connected node objects have distinct keys (premise of the node properties): only one object per key ever takes part in edge operations", "Display of u32 keys contains no whitespace or '->', so DOT text can be parsed by line"],
     "timeout": {"quick": 300, "thorough": 2400},
 }
+
+PROPS["C19"] = {
+    "id": "C19", "cmd": "leak", "level": "exploration",
+    "rule": "scenarios = (multigraph on <=N nodes / <=E connects incl. self-loops, cycles, parallel edges) x 10 sets of extra handles (container, yielded edge, bfs path, dfs cycle, preorder nodes, postorder edges, clone, found node) x drop orders (all permutations up to 4 handles, 14 sampled beyond: originals first, last, shuffled); random scenarios on 2..8 nodes add disconnect/isolate before the drops. After every single drop: no payload of a node that a surviving handle mentions has been released, every surviving handle still reads key/value of its nodes (own payload instance); after the last drop: live count 0 and every payload instance released exactly once. The same sub-command is re-run under valgrind memcheck (leak check, definite+indirect) and under Miri (leak report at exit, UB) as independent oracles. distinct = distinct (flavour, graph, handle set, drop order).",
+    "shards": {"quick": 8, "thorough": 16},
+    "args": {"quick": ["--max-n", "3", "--max-e", "2", "--random", "4000"], "thorough": ["--max-n", "3", "--max-e", "3", "--random", "200000"]},
+    "valgrind": {"quick": {"procs": 8, "args": ["--max-n", "2", "--max-e", "2", "--random", "400"], "timeout": 600},
+                 "thorough": {"procs": 16, "args": ["--max-n", "3", "--max-e", "2", "--random", "4000"], "timeout": 1800}},
+    "miri": {"quick": {"procs": 16, "nshards": 640, "args": ["--max-n", "2", "--max-e", "1", "--random", "0"], "timeout": 900},
+             "thorough": {"procs": 16, "nshards": 64, "args": ["--max-n", "2", "--max-e", "1", "--random", "64"], "timeout": 3000}},
+    "exhaustive": {"quick": True, "thorough": True},
+    "require": {"any": ["enumerations_completed", "scenarios_with_selfloop", "handle.container", "handle.edge", "handle.path", "handle.search_nodes result", "handle.search_edges result", "reads_through_surviving_handles", "random_scenarios", "valgrind.scenarios", "miri.scenarios"]},
+    "assumptions": ["the drop counters keep no addresses, so they cannot hide a leak from memcheck or Miri", "'usable' is read as: key(), value() and degree readable through the surviving handle (iterating edges whose peers the program itself dropped is outside the properties' live-node premise)"],
+    "timeout": {"quick": 300, "thorough": 2400},
+}
